@@ -107,16 +107,24 @@ def build_native(crate, crate_dir, harness, logdir):
     os.makedirs(os.path.join(nd, ".cargo"))
     with open(os.path.join(nd, ".cargo", "config.toml"), "w") as fh:
         fh.write("[net]\noffline = true\n")
+    tdir = os.path.join(ROOT, ".cache", "target-native-" + crate + os.environ.get("VERIF_RUN_SUFFIX", ""))
     env = dict(os.environ, CARGO_NET_OFFLINE="true", RUSTFLAGS="--cfg kani -A warnings", RUSTUP_TOOLCHAIN=NATIVE_TOOLCHAIN,
-               CARGO_TARGET_DIR=os.path.join(ROOT, ".cache", "target-native-" + crate))
+               CARGO_TARGET_DIR=tdir)
     log = os.path.join(logdir, "%s.native-build.log" % harness)
-    with open(log, "w") as fh:
-        p = subprocess.run(["cargo", "build", "--offline"], cwd=nd, stdout=fh, stderr=subprocess.STDOUT, env=env)
-    exe = os.path.join(env["CARGO_TARGET_DIR"], "debug", "native_replay")
-    if p.returncode != 0 or not os.path.exists(exe):
-        return None, log
-    keep = os.path.join(nd, "native_replay")
-    shutil.copy2(exe, keep)
+    os.makedirs(tdir, exist_ok=True)
+    # the executable has one name in one target directory: build + copy under an exclusive lock, or two
+    # checks confirming at the same time pick up each other's binary (seen: "6000 passed" for a
+    # counterexample that does reproduce)
+    import fcntl
+    with open(os.path.join(tdir, ".verif-native.lock"), "w") as lk:
+        fcntl.flock(lk, fcntl.LOCK_EX)
+        with open(log, "w") as fh:
+            p = subprocess.run(["cargo", "build", "--offline"], cwd=nd, stdout=fh, stderr=subprocess.STDOUT, env=env)
+        exe = os.path.join(tdir, "debug", "native_replay")
+        if p.returncode != 0 or not os.path.exists(exe):
+            return None, log
+        keep = os.path.join(nd, "native_replay")
+        shutil.copy2(exe, keep)
     return keep, log
 
 
